@@ -54,12 +54,13 @@ class Tokenizer:
                 tok = self._stack.pop()
             else:
                 tok = next(self._tokengen)
+            # remember the source line of every token, also of the blank ones (comment-only and empty lines)
+            if not self._path and tok.start[0] not in self._lines:
+                self._lines[tok.start[0]] = tok.line
             if self.is_blank(tok):
                 continue
 
             self._tokens.append(tok)
-            if not self._path and tok.start[0] not in self._lines:
-                self._lines[tok.start[0]] = tok.line
         return self._tokens[self._index]
 
     def is_blank(self, tok: TokenInfo) -> bool:
@@ -199,7 +200,8 @@ class Tokenizer:
                         if seen == n:
                             break
 
-        return [lines[n] for n in line_numbers]
+        # a line without any token of its own (inside a multi-line string, past the end of the file) reads as empty
+        return [lines.get(n, "") for n in line_numbers]
 
     def mark(self) -> Mark:
         return self._index
